@@ -83,8 +83,11 @@ def selftest(ctx):
 
     def drop_pass_guard(c):
         # a jump to a policy loses its "pass bit clear" guard
-        for r in ep(c)[1:]:
-            if r["a"]["k"] == "jump" and r["m"] and r["m"][0]["k"] == "mark":
+        # (a jump that directly follows the previous policy's "return if accepted": same tier)
+        rs = ep(c)
+        for i in range(1, len(rs)):
+            r = rs[i]
+            if r["a"]["k"] == "jump" and r["m"] and r["m"][0]["k"] == "mark" and rs[i - 1]["a"]["k"] == "return":
                 r["m"] = []
                 return c
 
@@ -110,7 +113,7 @@ def selftest(ctx):
         ("drop_end_of_tier_drop", drop_end_of_tier_drop), ("staged_counts_in_reference", staged_counts_in_reference),
         ("drop_pass_guard", drop_pass_guard), ("default_action_flipped", default_action_flipped),
         ("drop_policy_rule", drop_policy_rule), ("return_checks_pass_bit", return_checks_pass_bit)],
-        eligible=nontrivial, tries=6)
+        eligible=nontrivial, tries=40)
 
 
 MANIFEST = dict(
